@@ -71,6 +71,9 @@ def _enum_like(members_vals, v, wrap):
     if eqs:
         if wrap == 'enum' and kind(v) in ('float', 'complex') and all(type(e) is int for e in eqs):
             return _rej('float/complex is not an int-valued member')
+        if wrap is None and kind(v) in ('int', 'float', 'complex', 'bool'):
+            # Literal[1] is the int 1 (PEP 586 keeps Literal[0] and Literal[False] apart): 1.0 and True are not members
+            return _rej('a number of another kind is not that literal')
         return _unspec('literal_eq_other_type')
     return _rej('no member')
 
